@@ -1315,6 +1315,17 @@ theorem goodCall_leaf (call : LeafCall) (bs bs' : Shape) (g : GoodCall call bs b
   | reshape _ _ hprod hne =>
     obtain ⟨t', h1, h2⟩ := reshapeCall_leaf_commutes t bs.length bs' (by unfold T.rank; exact hn) (by rw [ht]; exact hprod)
     exact ⟨t', h1, by have hs := h2.1; simpa [asBatch, T.reshape] using hs⟩
+  | expand _ _ hl hc =>
+    have hcompat : ∀ i, i < bs.length → t.shape.getD i 0 = 1 ∨ bs'.getD (bs'.length - bs.length + i) 0 = t.shape.getD i 0 := by
+      intro i hi
+      have hg : t.shape.getD i 0 = bs.getD i 0 := by
+        have : (t.shape.take bs.length)[i]? = bs[i]? := by rw [ht]
+        rw [List.getElem?_take] at this
+        simp only [hi, if_true] at this
+        simp [List.getD_eq_getElem?_getD, this]
+      rw [hg]; exact hc i hi
+    obtain ⟨t', h1, h2⟩ := expand_leaf_commutes t bs.length bs' (by unfold T.rank; exact hn) hl hcompat
+    exact ⟨t', h1, by have hs := h2.1; simpa [asBatch, T.expand] using hs⟩
 
 
 
@@ -1827,6 +1838,16 @@ theorem catEntry_coh [Inhabited α] (dim : Nat) (e : TD α) (vals : List (TD α)
       rw [List.take_set, hp, hs, hg]
 termination_by (sizeOf e, 0)
 end
+
+
+/-- `expand` on whole trees: every target shape the arithmetic accepts (incl. `-1` entries and new leading dims) is carried out on EVERY
+entry of a coherent tree — leaves through torch's expand with their feature dims appended, nested tensordicts through the same method
+with their extra batch dims appended — and the result is coherent w.r.t. the expanded batch size -/
+theorem expand_coherent (shape : List Int) (bs bs' : Shape) (names nm' : Names) (call : LeafCall) (es : List (String × TD α))
+    (h : opMeta (.expand shape) bs names = .ok (some (bs', nm', call))) (hc : CoherentList bs es) :
+    ∃ nm es', tdNode (.expand shape) bs names es = .ok (.node bs' nm es') ∧ CoherentList bs' es' :=
+  shape_op_coherent_all.1 (.expand shape) bs names es bs' nm' call h (goodCall_of_meta_expand shape bs bs' names nm' call h)
+    (fun d sz hne => by cases hne) hc
 
 
 /-! ## whole trees: squeeze() -/
